@@ -340,8 +340,10 @@ func (db *DB) setPin(batch driver.Batching, item, rootItem shed.Item) (gcSizeCha
 						return 0, err
 					}
 				}
+				// the counter follows the recorded count: only a root that has
+				// a gc entry gives one up
+				gcSizeChange--
 			}
-			gcSizeChange--
 		}
 	}
 
